@@ -217,7 +217,8 @@ def run(ctx):
         for d in list(G._TMP.values()):
             shutil.rmtree(d, ignore_errors=True)
     for c in cases[:2]:
-        ctx.sample({'kind': c['kind'], 'gen_seed': c.get('gen_seed'), 'text': G.to_xml(c['doc'])[:2000]})
+        ctx.sample({'kind': c['kind'], 'gen_seed': c.get('gen_seed'),
+                    'text': G.to_xml(c.get('doc') or c['docs'][0])[:2000]})
 
 
 def load_corpus():
